@@ -140,8 +140,10 @@ theorem buildAttrs_ok : (kvs : List (Text × AVal)) → AttrsOk kvs → ItemsOk 
   | [], _ => by simp [buildAttrs, ItemsOk]
   | (k, v) :: rest, h => by
     simp only [AttrsOk] at h
-    simp only [buildAttrs, ItemsOk]
-    exact ⟨buildAttr_ok k v h.1 h.2.1, buildAttrs_ok rest h.2.2⟩
+    simp only [buildAttrs]
+    split
+    · simp only [ItemsOk]; exact ⟨buildAttr_ok k v h.1 h.2.1, buildAttrs_ok rest h.2.2⟩
+    · exact buildAttrs_ok rest h.2.2
 end
 
 theorem itemsOk_append (a b : List Item) (ha : ItemsOk a) (hb : ItemsOk b) : ItemsOk (a ++ b) := by
